@@ -1694,3 +1694,20 @@ Lemma Gen_sendqueue_ok :
 Proof.
   exact (conj Gen_sendqueue_consts_ok (conj Gen_sendqueue_send_ok (conj Gen_sendqueue_loop_ok Gen_sendqueue_drop_ok))).
 Qed.
+
+(* ================================================================== evaluated witnesses *)
+Lemma history_runs_ex : exists st outs,
+  run true [OSend OwUser [65;66;67]; OSend OwUser [68]; OSched [WK 1; WAgain]; OIter; OQlen; ODrop Youngest; OIter]
+      (init true) = Ok (st, outs) /\
+  outs = [OutNone; OutNone; OutNone; OutIter [65] false; OutLen 1; OutDrop (Some [68]); OutIter [] false].
+Proof. eexists. eexists. split; vm_compute; reflexivity. Qed.
+
+Lemma unfixed_uaf :
+  run false [OSend OwUser [65]; OSend OwSmLib [66]; OSend OwSmLib [67]; OSched [WAll; WAgain]; OIter; ODrop Youngest]
+      (init false) = UAF.
+Proof. vm_compute. reflexivity. Qed.
+
+Lemma unfixed_drops_sent : exists st,
+  run false [OSend OwUser [65]; OSend OwSmLib [67]; OSched [WAll; WAgain]; OIter; ODrop Youngest; OQlen] (init true)
+  = Ok (st, [OutNone; OutNone; OutNone; OutIter [65] false; OutDrop (Some [65]); OutLen (-1)]).
+Proof. eexists. vm_compute. reflexivity. Qed.
